@@ -191,7 +191,8 @@ func c05Compare(ref *refbx.Result, b *bundle.Bundle) string {
 		if g.Request.URL.String() != w.url {
 			return fmt.Sprintf("exchange %d URL %q, file has %q", i, g.Request.URL, w.url)
 		}
-		if strconv.Itoa(g.Response.Status) != w.r.Status {
+		// (the status pseudo header is three digits; "000" and "007" denote 0 and 7)
+		if ws, err := strconv.Atoi(w.r.Status); err != nil || len(w.r.Status) != 3 || g.Response.Status != ws {
 			return fmt.Sprintf("exchange %d status %d, file has %q", i, g.Response.Status, w.r.Status)
 		}
 		if !bytes.Equal(g.Response.Body, w.r.Body) {
@@ -288,6 +289,9 @@ func c05Exec(c *mc.Ctx, v interface{}) {
 		c.Outcome("malformed, refused")
 	}
 }
+
+// c05GenFn is the C05 case generator (also used by C10 for the bundle reader).
+var c05GenFn func(c *mc.Ctx) interface{}
 
 func c05Bounds(exact uint64, fileLen int) []uint64 {
 	return []uint64{0, exact - 1, exact + 1, uint64(fileLen), 1 << 32, 1<<63 - 1, 1 << 63, 1<<64 - 1, exact + 1<<63}
@@ -510,6 +514,7 @@ func init() {
 			return &c05Case{input: out, base: base, op: fmt.Sprintf("unknown-in-table-only(len %d)@%d", l, pos), mustAccept: false}
 		}
 	}
+	c05GenFn = gen
 	h := &mc.Harness{
 		Name:     "C05/mutated-bundles",
 		Isolated: true,
